@@ -9,6 +9,8 @@ Line protocol (same lines go to the Go driver = real code and to the Lean driver
   inv[x] <cfg> <rows> | <crit>                              real bluge element index + compiled inverted filter
   part[x] <engine> <cfg> <sids> <lo> <hi> <rows> | <crit>   real part writer + real part iterator (model abstains)
   sum <engine> <cfg> <rows>                                 summaries the real writer produces (model abstains)
+  mpart <sids> <lo> <hi> <sid:ts[*n]>...                    measure: real memPart writer + partIter, time/series pruning (model abstains)
+  bnd <order tag> <rows> | <crit>                           trace buildFilter: sidx key range derived for the order-by tag
 
 values: N null, M nil (absent), S<hex> string, I<dec> int, A<hex,..> string array, J<dec,..> int array
 criteria (prefix): and C C | or C C | <op> <tag> <value>, op in eq ne lt le gt ge in nin hav nhav match
@@ -548,10 +550,70 @@ class C08(vlib.Spec):
             toks.append("%d:%d:%s" % (rng.randint(1, 2), 10 + i, ":".join(tok(v) for v in r)))
         return "sum %s %s %s" % (engine, cfg, " ".join(toks))
 
+    def g_mpart(self, rng, big=False):
+        """measure part with overlapping per-series time ranges; every query range must see every block that holds a
+        point inside it (part / primary-block / block level time bounds, series selection)."""
+        nser = rng.choice([1, 2, 2, 3, 4, 6])
+        toks, used = [], set()
+        tmax = 60
+        for sid in range(1, nser + 1):
+            start = rng.randint(1, 40)
+            k = rng.choice([1, 2, 2, 3, 5])
+            ts = start
+            for _ in range(k):
+                while ts in used:
+                    ts += 1
+                used.add(ts)
+                t = "%d:%d" % (sid, ts)
+                if big and rng.random() < 0.3:
+                    cnt = rng.choice([8192, 8193, 9000])
+                    # keep timestamps unique: reserve the run
+                    while any(x in used for x in range(ts + 1, ts + cnt)):
+                        ts += 1
+                    t = "%d:%d*%d" % (sid, ts, cnt)
+                    used.update(range(ts, ts + cnt))
+                    ts += cnt
+                toks.append(t)
+                ts += rng.choice([1, 2, 5, 10])
+            tmax = max(tmax, ts)
+        rng.shuffle(toks)
+        sids = sorted(set(rng.sample(range(1, nser + 2), rng.randint(1, nser + 1))))
+        lo = rng.randint(0, tmax)
+        hi = rng.randint(lo, tmax + 5)
+        if rng.random() < 0.2:
+            lo = 0
+        return "mpart %s %d %d %s" % (",".join(map(str, sids)), lo, hi, " ".join(toks))
+
+    def g_bnd(self, rng):
+        ti = rng.choice([2, 3])
+        rows = self.dataset(rng, null_p=0.1)
+        for r in rows:
+            if isinstance(r[ti], int) and rng.random() < 0.5:
+                r[ti] = rng.choice([0, 1, 49, 50, 51, 100, 200, 500, 600, -5, 2**63 - 1, -2**63, 2**63 - 2, -2**63 + 1])
+
+        def leaf():
+            if rng.random() < 0.7:
+                col = [r[ti] for r in rows if isinstance(r[ti], int)]
+                base = rng.choice(col) if col and rng.random() < 0.6 else rand_int(rng)
+                lit = max(-2**63, min(2**63 - 1, base + rng.choice([0, 0, 1, -1, 10, -10])))
+                return (rng.choice(["lt", "le", "gt", "ge", "lt", "le", "gt", "ge", "eq", "ne"]), ti, lit)
+            while True:
+                lf = gen_leaf(rng, rows, edge=False)
+                if not (lf[0] in ("eq", "ne") and isinstance(lf[2], tuple)):
+                    return lf
+
+        def go(d):
+            if d <= 0 or rng.random() < 0.25:
+                return leaf()
+            return (rng.choice(["and", "or", "or"]), go(d - 1), go(d - 1))
+        c = go(rng.choice([1, 2, 3]))
+        self.note_leaves(c, rows)
+        return "bnd %s %s | %s" % (TAGS[ti], " ".join(":".join(tok(v) for v in r) for r in rows), " ".join(crit_tokens(c)))
+
     def cases(self, rng, n):
         out = []
-        w = [("bloom", 0.08), ("dict", 0.10), ("tf", 0.34), ("skip", 0.22), ("inv", 0.08), ("invx", 0.02),
-             ("part", 0.08), ("sum", 0.06)]
+        w = [("bloom", 0.07), ("dict", 0.09), ("tf", 0.28), ("skip", 0.20), ("inv", 0.07), ("invx", 0.02),
+             ("part", 0.07), ("sum", 0.05), ("mpart", 0.07), ("bnd", 0.08)]
         for kind, frac in w:
             for _ in range(max(1, int(n * frac))):
                 if kind == "bloom":
@@ -568,11 +630,17 @@ class C08(vlib.Spec):
                     out.append(self.g_inv(rng, targeted=True))
                 elif kind == "part":
                     out.append(self.g_part(rng))
+                elif kind == "mpart":
+                    out.append(self.g_mpart(rng))
+                elif kind == "bnd":
+                    out.append(self.g_bnd(rng))
                 else:
                     out.append(self.g_sum(rng))
         # a few multi-block parts (2 MiB stream blocks / 8193-row sidx blocks): expensive, fixed small number
         for _ in range(min(60, max(6, n // 400))):
             out.append(self.g_part(rng, big=True))
+        for _ in range(min(20, max(4, n // 1000))):
+            out.append(self.g_mpart(rng, big=True))
         return out
 
     # ---------------- oracle -----------------
@@ -599,6 +667,10 @@ class C08(vlib.Spec):
             return self.o_part(f, o)
         if k == "sum":
             return self.o_sum(f, o)
+        if k == "mpart":
+            return self.o_mpart(f, o)
+        if k == "bnd":
+            return self.o_bnd(f, o)
         return None
 
     def o_bloom(self, f, o):
@@ -793,10 +865,62 @@ class C08(vlib.Spec):
                         return ("violation", "block %s tag %s: min %s above stored value %d" % (blk, tag, mn, min(vals)))
         return None
 
+    def o_mpart(self, f, o):
+        if o[0].startswith("E"):
+            return ("violation", "measure part scan error " + o[0])
+        part, prim, allb, got = o[0], o[1], o[2], o[3]
+        sids = set(int(x) for x in f[1].split(","))
+        lo, hi = int(f[2]), int(f[3])
+        pts = []
+        for t in f[4:]:
+            cnt = 1
+            if "*" in t:
+                t, c = t.split("*")
+                cnt = int(c)
+            sid, ts = t.split(":")
+            pts.append((int(sid), int(ts), int(ts) + cnt - 1))
+        pmin, pmax = (int(x) for x in part.rsplit("~", 1)) if not part.startswith("-") else (int(part.split("~")[0]), int(part.split("~")[1]))
+        if pts and (pmin > min(p[1] for p in pts) or pmax < max(p[2] for p in pts)):
+            return ("violation", "part time bounds %s do not cover the written points" % part)
+        allb = [] if allb == "-" else [self.parse_block(b) for b in allb.split(",")]
+        got = set() if got == "-" else set(self.parse_block(b) for b in got.split(","))
+        if not got <= set(allb):
+            return ("violation", "iterator returned a block that is not in the part")
+        if sum(b[3] for b in allb) != sum(p[2] - p[1] + 1 for p in pts):
+            return ("violation", "blocks of the part do not hold all written points")
+        for sid, a, z in pts:
+            if sid not in sids:
+                continue
+            for blk in allb:
+                bs, bl, bh, _ = blk
+                if bs != sid:
+                    continue
+                x, y = max(a, bl, lo), min(z, bh, hi)
+                if x <= y and blk not in got:
+                    return ("violation", "block %d@%d-%d holds points in the queried time range [%d,%d] (ts %d..%d) but was pruned "
+                            "(part %s, primary blocks %s)" % (bs, bl, bh, lo, hi, x, y, part, prim))
+        return None
+
+    def o_bnd(self, f, o):
+        if o[0].startswith("CERR"):
+            return None
+        mn, mx, bits = int(o[0]), int(o[1]), o[2]
+        if bits in ("B", "-"):
+            return None
+        ti = TAGS.index(f[1])
+        bar = f.index("|")
+        for rt, b in zip(f[2:bar], bits):
+            if b != "1":
+                continue
+            v = untok(rt.split(":")[ti])
+            if isinstance(v, int) and not (mn <= v <= mx):
+                return ("violation", "row with %s=%d satisfies the criteria but lies outside the scan key range [%d,%d]" % (f[1], v, mn, mx))
+        return None
+
     # ---------------- plumbing -----------------
 
     def compare(self, line, g, l):
-        if line.startswith(("part", "sum")):
+        if line.startswith(("part", "sum", "mpart")):
             return True            # model abstains: block layout / encoders are outside the model
         return g == l
 
@@ -811,7 +935,9 @@ class C08(vlib.Spec):
         o = g.split()
         if f[0] in ("tf",):
             return line if g in ("0", "1") else None
-        if f[0] in ("skip", "inv", "invx", "part", "partx"):
+        if f[0] == "mpart":
+            return line if len(o) > 3 and o[2] != o[3] and o[3] != "-" else None
+        if f[0] in ("skip", "inv", "invx", "part", "partx", "bnd"):
             bits = o[-1] if o else ""
             return line if ("1" in bits and "0" in bits) else None
         if f[0] == "bloom":
@@ -858,6 +984,7 @@ SPEC.theorems = ["Banyan.C08." + t for t in [
     "index_eq_scan",
     "index_exec_exact",
     "criteria_config_invariant",
+    "bounds_sound",
     "scanPart_complete_partial",
     "scan_legacy_counterexample",
     "range_missing_bounds_legacy_counterexample",
